@@ -20,6 +20,9 @@ class QueryResult:
         self.target = None; self.properties = []; self.c_file = None; self.log = None; self.backend = 'cbmc-sat(minisat)'
         self.assumptions = []; self.unit = None; self.functions = []
 
+import threading
+_TRANSLATE_LOCK = threading.RLock()
+
 def _limit():
     gb = int(os.environ.get('VERIF_MEM_GB', '14'))
     resource.setrlimit(resource.RLIMIT_AS, (gb << 30, gb << 30))
@@ -82,6 +85,12 @@ class UnitBuilder:
         return out
 
     def unit_text(self, selfstubs, canaries, roots, slices=()):
+        # translations of one unit share the declaration tables (lambdas and generated helpers are added to them while
+        # printing): one translation at a time; the cbmc runs, which dominate, stay parallel
+        with _TRANSLATE_LOCK:
+            return self._unit_text(selfstubs, canaries, roots, slices)
+
+    def _unit_text(self, selfstubs, canaries, roots, slices=()):
         key = (tuple(sorted(selfstubs)), tuple(sorted(canaries)), tuple(sorted(roots)), tuple(slices))
         if key in self.text_cache: return self.text_cache[key]
         # a fresh translation state (declarations/index are shared)
@@ -254,29 +263,49 @@ def run_query(builder, q, vars_, tier, workroot):
         if rc != 0:
             res.reason = 'goto-instrument failed: ' + (so + se)[-2500:]; return res
         obits = q.object_bits or 8
+        # phase 1: plain text UI (cbmc's JSON UI builds a counterexample trace for EVERY failed property, including the
+        # reachability canaries that are meant to fail; with large symbolic buffers that alone took minutes)
         while True:
-            cb = ['cbmc', gb2] + (['--no-standard-checks'] if q.checks == 'none' else DEFAULT_CHECKS) + ['--json-ui', '--object-bits', str(obits), '--no-malloc-may-fail']
-            if q.unwindset: cb += ['--unwindset', ','.join(subst(x, vars_).replace('TARGET', target + '_wrapped_for_contract_checking') for x in q.unwindset)]
-            cb += [subst(f, vars_) for f in q.flags]
+            base = ['cbmc', gb2] + (['--no-standard-checks'] if q.checks == 'none' else DEFAULT_CHECKS) + ['--object-bits', str(obits), '--no-malloc-may-fail']
+            if q.unwindset: base += ['--unwindset', ','.join(subst(x, vars_).replace('TARGET', target + '_wrapped_for_contract_checking') for x in q.unwindset)]
+            base += [subst(f, vars_) for f in q.flags]
+            cb = list(base)
             rc, so, se, dt = run(cb, timeout)
-            if rc != 'timeout' and 'too many addressed objects' in so and obits < 16:
+            if rc != 'timeout' and 'too many addressed objects' in (so + se) and obits < 16:
                 obits += 2; continue
             break
         res.cmd = ' '.join(gi) + ' && ' + ' '.join(cb)
-        logp = os.path.join(qdir, 'cbmc.json'); open(logp, 'w').write(so); res.log = logp
+        logp = os.path.join(qdir, 'cbmc.txt'); open(logp, 'w').write(so + se); res.log = logp
         if rc == 'timeout':
             res.reason = 'cbmc timeout after %ds' % timeout; return res
-        try:
-            data = json.loads(so)
-        except Exception as e:
-            res.reason = 'cbmc output not JSON (rc=%s): %s' % (rc, (so + se)[-1500:]); return res
-        results = None; msgs = []
-        for item in data:
-            if 'result' in item: results = item['result']
-            if 'messageText' in item: msgs.append(item['messageText'])
-        alltext = '\n'.join(msgs)
-        if results is None:
+        alltext = so + se
+        results = []
+        for m in re.finditer(r"^\[([^\]]+)\] (?:line (\d+) )?(.*): (SUCCESS|FAILURE|UNKNOWN|ERROR)$", so, re.M):
+            prop = m.group(1)
+            fnm = re.sub(r"\.[A-Za-z_\-]+\.\d+$", '', prop)
+            results.append({'property': prop, 'description': m.group(3), 'status': m.group(4),
+                            'sourceLocation': {'line': m.group(2), 'function': fnm}})
+        if not results:
+            if 'ran out of memory' in alltext or 'Out of memory' in alltext or rc in (-9, 137):
+                res.reason = 'cbmc ran out of memory'; return res
             res.reason = 'cbmc gave no result list (rc=%s): %s' % (rc, alltext[-1500:]); return res
+        # phase 2: traces for the genuine failures only (JSON UI restricted to those properties)
+        bad = [r['property'] for r in results if r['status'] == 'FAILURE' and not r['description'].startswith('canary')]
+        if bad:
+            cb2 = list(base) + ['--json-ui']
+            for pr in bad[:6]: cb2 += ['--property', pr]
+            rc2, so2, se2, dt2 = run(cb2, min(timeout, 300))
+            open(os.path.join(qdir, 'cbmc.json'), 'w').write(so2 if isinstance(so2, str) else '')
+            try:
+                for item in json.loads(so2):
+                    for r2 in item.get('result', []) if isinstance(item, dict) else []:
+                        if 'trace' in r2:
+                            for r in results:
+                                if r['property'] == r2.get('property'):
+                                    r['trace'] = r2['trace']
+                                    if r2.get('sourceLocation'): r['sourceLocation'] = dict(r2['sourceLocation'])
+            except Exception:
+                pass
         if 'ran out of memory' in alltext or 'Out of memory' in alltext:
             res.reason = 'cbmc ran out of memory'; return res
         if 'ignoring forall' in alltext or 'ignoring exists' in alltext:
